@@ -927,6 +927,216 @@ func recvTypeName(fd *ast.FuncDecl) string {
 	return ""
 }
 
+// ---- second table: datastore read call sites and the consistency they forward ---------------------
+//
+// Every call  x.Read / ReadUsersetTuples / ReadStartingWithUser / ReadUserTuple / ReadPage (ctx, store,
+// filter, options)  in the engines and commands, with what its options argument carries in the field
+// Consistency: `Forwards "<expr>"` when it is (or is bound, by a single assignment in the enclosing
+// function, to) a literal ...Options{Consistency: storage.ConsistencyOptions{Preference: <expr>}} (the
+// ConsistencyOptions literal may itself be bound to a local); `NoConsistency` when the literal has no
+// Consistency field (e.g. storage.ReadOptions{}); `UnknownOpts` for anything else (fail closed).
+// Calls pipeline.WithStoreConsistency(<expr>) are listed too (they set the field the ListObjects
+// pipeline store forwards).
+
+var readDirs = []string{"internal/check", "internal/graph", "internal/checkutil", "internal/listobjects/pipeline",
+	"pkg/server/commands", "pkg/server/commands/reverseexpand", "pkg/server/commands/listusers"}
+
+var readMethods = map[string]bool{"Read": true, "ReadUsersetTuples": true, "ReadStartingWithUser": true, "ReadUserTuple": true, "ReadPage": true}
+
+type readSite struct{ file, fn, meth, fwd string }
+
+// bindings of a function body: identifier -> the right-hand sides assigned to it
+func assignments(body *ast.BlockStmt) map[string][]ast.Expr {
+	m := map[string][]ast.Expr{}
+	ast.Inspect(body, func(n ast.Node) bool {
+		switch v := n.(type) {
+		case *ast.AssignStmt:
+			if len(v.Lhs) == len(v.Rhs) {
+				for i, l := range v.Lhs {
+					if id, ok := l.(*ast.Ident); ok {
+						m[id.Name] = append(m[id.Name], v.Rhs[i])
+					}
+				}
+			} else {
+				for _, l := range v.Lhs {
+					if id, ok := l.(*ast.Ident); ok {
+						m[id.Name] = append(m[id.Name], nil)
+					}
+				}
+			}
+		case *ast.ValueSpec:
+			for i, id := range v.Names {
+				if i < len(v.Values) {
+					m[id.Name] = append(m[id.Name], v.Values[i])
+				} else {
+					m[id.Name] = append(m[id.Name], nil)
+				}
+			}
+		case *ast.IncDecStmt:
+			if id, ok := v.X.(*ast.Ident); ok {
+				m[id.Name] = append(m[id.Name], nil)
+			}
+		case *ast.UnaryExpr:
+			if v.Op == token.AND { // &x: may be written through the pointer
+				if id, ok := v.X.(*ast.Ident); ok {
+					m[id.Name] = append(m[id.Name], nil)
+				}
+			}
+		}
+		return true
+	})
+	// fields of a tracked value written after the fact (opts.Consistency = ...)
+	ast.Inspect(body, func(n ast.Node) bool {
+		if as, ok := n.(*ast.AssignStmt); ok {
+			for _, l := range as.Lhs {
+				if sel, ok := l.(*ast.SelectorExpr); ok {
+					if id, ok := sel.X.(*ast.Ident); ok {
+						m[id.Name] = append(m[id.Name], nil)
+					}
+				}
+			}
+		}
+		return true
+	})
+	return m
+}
+
+func resolveLit(e ast.Expr, asg map[string][]ast.Expr, depth int) (*ast.CompositeLit, string) {
+	switch v := e.(type) {
+	case *ast.ParenExpr:
+		return resolveLit(v.X, asg, depth)
+	case *ast.CompositeLit:
+		return v, ""
+	case *ast.Ident:
+		rhs := asg[v.Name]
+		if depth < 3 && len(rhs) == 1 && rhs[0] != nil {
+			return resolveLit(rhs[0], asg, depth+1)
+		}
+		return nil, fmt.Sprintf("%s (not bound by a single assignment in the function)", v.Name)
+	}
+	return nil, src(e)
+}
+
+func field(cl *ast.CompositeLit, name string) (ast.Expr, bool, bool) {
+	keyed := true
+	for _, el := range cl.Elts {
+		kv, ok := el.(*ast.KeyValueExpr)
+		if !ok {
+			keyed = false
+			continue
+		}
+		if id, ok := kv.Key.(*ast.Ident); ok && id.Name == name {
+			return kv.Value, true, keyed
+		}
+	}
+	return nil, false, keyed
+}
+
+func forwarded(opts ast.Expr, asg map[string][]ast.Expr) string {
+	cl, why := resolveLit(opts, asg, 0)
+	if cl == nil {
+		return "UnknownOpts " + coqStr(why)
+	}
+	if !strings.HasSuffix(src(cl.Type), "Options") {
+		return "UnknownOpts " + coqStr(src(opts))
+	}
+	cv, ok, keyed := field(cl, "Consistency")
+	if !keyed {
+		return "UnknownOpts " + coqStr(src(cl))
+	}
+	if !ok {
+		return "NoConsistency"
+	}
+	ccl, why := resolveLit(cv, asg, 0)
+	if ccl == nil {
+		return "UnknownOpts " + coqStr("Consistency: "+why)
+	}
+	if !strings.HasSuffix(src(ccl.Type), "ConsistencyOptions") {
+		return "UnknownOpts " + coqStr(src(cv))
+	}
+	pv, ok, keyed := field(ccl, "Preference")
+	if !keyed {
+		return "UnknownOpts " + coqStr(src(ccl))
+	}
+	if !ok {
+		return "NoConsistency"
+	}
+	return "Forwards " + coqStr(src(pv))
+}
+
+func scanReads(repo string) []readSite {
+	var out []readSite
+	for _, dir := range readDirs {
+		ents, err := os.ReadDir(filepath.Join(repo, dir))
+		if err != nil {
+			fail("read-site directory %s is missing: %v", dir, err)
+		}
+		var names []string
+		for _, e := range ents {
+			if !e.IsDir() && strings.HasSuffix(e.Name(), ".go") && !strings.HasSuffix(e.Name(), "_test.go") {
+				names = append(names, e.Name())
+			}
+		}
+		sort.Strings(names)
+		for _, fn := range names {
+			p := filepath.Join(repo, dir, fn)
+			data, err := os.ReadFile(p)
+			if err != nil {
+				continue
+			}
+			if !bytes.Contains(data, []byte(".Read")) && !bytes.Contains(data, []byte("WithStoreConsistency(")) {
+				continue
+			}
+			f, err := parser.ParseFile(fset, p, data, parser.SkipObjectResolution)
+			if err != nil {
+				fail("parse %s: %v", p, err)
+			}
+			for _, d := range f.Decls {
+				fd, ok := d.(*ast.FuncDecl)
+				if !ok || fd.Body == nil {
+					continue
+				}
+				name := fd.Name.Name
+				if rt := recvTypeName(fd); rt != "" {
+					name = rt + "." + name
+				}
+				asg := assignments(fd.Body)
+				// parameters are not bound by an assignment: mark them
+				if fd.Type.Params != nil {
+					for _, fl := range fd.Type.Params.List {
+						for _, n := range fl.Names {
+							asg[n.Name] = append(asg[n.Name], nil)
+						}
+					}
+				}
+				ast.Inspect(fd.Body, func(n ast.Node) bool {
+					c, ok := n.(*ast.CallExpr)
+					if !ok {
+						return true
+					}
+					sel, ok := c.Fun.(*ast.SelectorExpr)
+					if !ok {
+						return true
+					}
+					if sel.Sel.Name == "WithStoreConsistency" && len(c.Args) == 1 {
+						out = append(out, readSite{filepath.Join(dir, fn), name, "WithStoreConsistency", "Forwards " + coqStr(src(c.Args[0]))})
+						return true
+					}
+					if !readMethods[sel.Sel.Name] || len(c.Args) != 4 {
+						return true
+					}
+					out = append(out, readSite{filepath.Join(dir, fn), name, sel.Sel.Name, forwarded(c.Args[3], asg)})
+					return true
+				})
+			}
+		}
+	}
+	if len(out) == 0 {
+		fail("no datastore read call site found")
+	}
+	return out
+}
+
 type row struct {
 	name string
 	file string
@@ -1076,6 +1286,16 @@ func main() {
 			sb.WriteString(";\n   ")
 		}
 		fmt.Fprintf(&sb, "mkC10Row %s %s\n     (%s)", coqStr(r.name), coqStr(r.file), coq(r.p))
+	}
+	sb.WriteString("].\n\n")
+	sb.WriteString("Inductive c10_fwd := Forwards (e : string) | NoConsistency | UnknownOpts (txt : string).\n\n")
+	sb.WriteString("Record c10_read := mkC10Read { c10r_file : string; c10r_func : string; c10r_meth : string; c10r_fwd : c10_fwd }.\n\n")
+	sb.WriteString("Definition c10_reads : list c10_read :=\n  [")
+	for i, r := range scanReads(*repo) {
+		if i > 0 {
+			sb.WriteString(";\n   ")
+		}
+		fmt.Fprintf(&sb, "mkC10Read %s %s %s (%s)", coqStr(r.file), coqStr(r.fn), coqStr(r.meth), r.fwd)
 	}
 	sb.WriteString("].\n")
 	if err := os.MkdirAll(*out, 0o755); err != nil {
